@@ -37,3 +37,5 @@ pub fn verif_canary_must_fail() {
 #[cfg(bytecodealliance_wit_bindgen_verif_native)]
 #[path = "/verif/.build/playback/tests.rs"]
 mod playback;
+#[path = "/verif/harness/c21.rs"]
+mod c21;
